@@ -152,6 +152,42 @@ def runWithFault (r : Repo) (failAt : Nat) : List Op → Repo × Bool
   | [] => (r, true)
   | o :: ops => if failAt = 0 then (r, false) else runWithFault (apply r o) (failAt - 1) ops
 
+/-! ### snapshot-REPLACING commands (`rewrite --forget`, `repair snapshots --delete`): nothing that existed is lost
+
+`commands/rewrite.rs process_snapshots`: `repo.save_snapshots(snapshots.clone())?` and only then
+`repo.delete_snapshots(&old_snap_ids)?`; `commands/repair/snapshots.rs`: `be.save_file(&snap)` for every modified snapshot,
+then `be.delete_list(state.delete)`.  `succ` is the replacement table `(old snapshot id, new snapshot id)`. -/
+
+def hasSnap (r : Repo) (id : Nat) : Bool := r.snaps.any (fun s => s.id == id)
+
+/-- snapshot `id` is present as itself or as (one of) its successor(s) -/
+def kept (r : Repo) (succ : List (Nat × Nat)) (id : Nat) : Bool :=
+  hasSnap r id || succ.any (fun p => p.1 == id && hasSnap r p.2)
+
+/-- none of the snapshots `olds` is lost -/
+def noneLost (r : Repo) (succ : List (Nat × Nat)) (olds : List Nat) : Bool := olds.all (kept r succ)
+
+/-- first prefix length of `ops` whose state has lost one of `olds` (none = no prefix loses a snapshot) -/
+def firstLost (succ : List (Nat × Nat)) (olds : List Nat) (r : Repo) (ops : List Op) : Option Nat :=
+  let rec go (r : Repo) (k : Nat) : List Op → Option Nat
+    | [] => if noneLost r succ olds then none else some k
+    | o :: ops => if noneLost r succ olds then go (apply r o) (k + 1) ops else some k
+  go r 0 ops
+
+/-- the snapshots a run must keep: those of the state before that the run either never removes or replaces
+(a snapshot removed without successor is removed on purpose: `forget`, an unrepairable root tree) -/
+def mustKeep (r : Repo) (succ : List (Nat × Nat)) (ops : List Op) : List Nat :=
+  (r.snaps.map (·.id)).filter (fun id => succ.any (fun p => p.1 == id) ||
+    !(ops.any (fun o => match o with | .removeSnap j => j == id | _ => false)))
+
+/-- the snapshot part of a replacing command: the new snapshot files, then the removal of the ones they replace -/
+def replaceOps (writes : List Op) (pairs : List (Nat × Snap)) : List Op :=
+  writes ++ pairs.map (fun p => Op.writeSnap p.2) ++ pairs.map (fun p => Op.removeSnap p.1)
+
+def Op.isRemoveSnap : Op → Bool
+  | .removeSnap _ => true
+  | _ => false
+
 /-! ### phase order of the commands (language of operation kinds) -/
 def Op.kind : Op → Char
   | .writePack _ => 'P' | .removePack _ => 'p' | .writeIndex _ => 'I' | .removeIndex _ => 'i'
